@@ -57,6 +57,7 @@ def respName : Resp → String
   | .status c => s!"st:{c}"
   | .silent => "silent"
   | .io => "io"
+  | .wfail => "wfail"
 
 def traceLine (t : Tier) (tr : List TraceEntry) : String :=
   let es := tr.filter (·.tier == t)
